@@ -18,7 +18,7 @@ func init() {
 
 var spellings = [][]string{{"0", "0.0", "-0", "0e3"}, {"1", "1.0", "1e0", "10e-1"}, {"2", "2.00", "0.2e1"}, {"-1", "-1.0"}, {"10", "1e1", "10.0"}, {"2.5", "25e-1"}, {"100", "1e2"}, {"-3", "-3.000"}, {"0.5", "5e-1"}, {"7", "7.0"}}
 var bigNative = []any{int64(1) << 53, int64(1)<<53 + 1, int64(1)<<53 + 2, uint64(1)<<53 + 1, json.Number("9007199254740993"), uint64(math.MaxUint64), uint64(math.MaxUint64) - 1, uint64(math.MaxUint64) - 2, int64(math.MaxInt64), int64(math.MaxInt64) - 1, uint64(math.MaxInt64) + 1, int64(math.MinInt64), int64(math.MinInt64) + 1, int(1)<<60 + 1, int(1) << 60, uint(1)<<60 + 2, float64(1 << 53), json.Number("18446744073709551615"), json.Number("-9223372036854775807")}
-var strPool = []string{"", "a", "b", "ab", "B", "é", "z", "€", "😀", "aa", "ü", "中", "á", "�", "~", "0", "A"}
+var strPool = []string{"", "a", "b", "ab", "B", "é", "z", "€", "😀", "ｚ", "aa", "𝌆", "ﬀ", "ü", "\U00010000", "\uffff", "中", "\ue000", "á", "\ufffd", "~", "0", "A", "😀a", "ｚa", "a😀", "aｚ"}
 
 func cmpAny(a, b any) int {
 	if as, ok := a.(string); ok {
@@ -79,13 +79,14 @@ func genC13(tier, out string, sum *Summary) {
 			l = 13 + rng.Intn(maxLen) // beyond the insertion-sort threshold of the library's sort routines
 		}
 		useStr := rng.Intn(2) == 0
+		strOff := rng.Intn(len(strPool)) // a window of the pool: neighbours in it differ in plane, width or case
 		nativeBig := !useStr && i%6 == 1
 		nkeys := 1 + rng.Intn(4) // heavy duplication
 		arr := make([]any, l)
 		for j := range arr {
 			var key any
 			if useStr {
-				key = strPool[rng.Intn(nkeys*3)%len(strPool)]
+				key = strPool[(strOff+rng.Intn(nkeys*3))%len(strPool)]
 			} else {
 				g := spellings[rng.Intn(nkeys+1)%len(spellings)]
 				key = json.Number(pick(g))
